@@ -127,7 +127,8 @@ class Ref:
             emit = not look
             if atom != NON:
                 self.ev["nonatomic_rule_reenabled_trivia"] += 1
-        if name in ("WHITESPACE", "COMMENT"):
+        if name in ("WHITESPACE", "COMMENT") and mod != "$":
+            # pest wraps the body in Atomicity::Atomic unless the rule is declared compound-atomic
             inner = ATOMIC
         r = self.evl(expr, pos, stack, inner, look)
         self.depth -= 1
